@@ -30,6 +30,8 @@ def plan(tier):
             for (colour, C) in ((False, 1), (False, 2), (True, 3)):
                 for mb in MAGB:
                     items.append({'kind': 'layer', 'layer': 1, 'biort': b, 'qshift': None, 'h': h, 'w': w, 'colour': colour, 'C': C, 'magbias': mb})
+                if (h, w) in ((4, 4), (4, 6)):
+                    items.append({'kind': 'layer', 'layer': 1, 'biort': b, 'qshift': None, 'h': h, 'w': w, 'colour': colour, 'C': C, 'magbias': 1e-7, 'tiny': True})
                 if (h, w) in ((4, 6), (8, 8), (6, 4)):
                     items.append({'kind': 'layer', 'layer': 1, 'biort': b, 'qshift': None, 'h': h, 'w': w, 'colour': colour, 'C': C, 'magbias': 1e-2, 'mode': 'zero'})
     p2 = [('near_sym_a', 'qshift_a'), ('near_sym_b_bp', 'qshift_b_bp'), ('antonini', 'qshift_c')] if q else \
@@ -51,7 +53,7 @@ def bounds(tier):
 
 
 def required_regimes(tier):
-    return {'layer:1', 'layer:2', 'bp', 'colour', 'C:2', 'base:zero', 'base:const', 'base:sparse', 'base:dense', 'size:h!=w', 'smoothmag', 'smoothmag:only_y', 'mode:zero', 'input:noncontiguous', 'size:odd', 'cotangent:single'}
+    return {'layer:1', 'layer:2', 'bp', 'colour', 'C:2', 'base:zero', 'base:const', 'base:sparse', 'base:dense', 'size:h!=w', 'smoothmag', 'smoothmag:only_y', 'mode:zero', 'input:noncontiguous', 'size:odd', 'cotangent:single', 'output:inplace_before_backward', 'tiny_bias'}
 
 
 def _bases(C, H, W):
@@ -117,7 +119,7 @@ def run(item):
     from pytorch_wavelets import ScatLayer, ScatLayerj2
     layer, b, qs, H, W, colour, C, mb = (item[k] for k in ('layer', 'biort', 'qshift', 'h', 'w', 'colour', 'C', 'magbias'))
     tags = ['layer:%d' % layer] + (['bp'] if b.endswith('_bp') else []) + (['colour'] if colour else []) + (['C:2'] if C == 2 else []) + \
-        (['size:h!=w'] if H != W else []) + (['size:odd'] if (H % 2 or W % 2) else []) + (['mode:zero'] if item.get('mode') == 'zero' else [])
+        (['size:h!=w'] if H != W else []) + (['size:odd'] if (H % 2 or W % 2) else []) + (['mode:zero'] if item.get('mode') == 'zero' else []) + (['tiny_bias'] if item.get('tiny') else [])
     mod = ScatLayer(biort=b, magbias=mb, combine_colour=colour, mode=item.get('mode', 'symmetric')) if layer == 1 else ScatLayerj2(biort=b, qshift=qs, magbias=mb, combine_colour=colour)
     P = C * H * W
     res.state(common.sha(item))
@@ -128,7 +130,11 @@ def run(item):
         return Z.reshape(Z.shape[0], -1).numpy()
 
     done = set()
-    for kind, x0 in _bases(C, H, W):
+    bases = _bases(C, H, W)
+    if item.get('tiny'):
+        # a bias far below the usual ones with inputs of the same tiny magnitude: the derivative re/r is still O(1)
+        bases = [(k_, 1e-7 * x_ / max(1.0, float(np.abs(x_).max()))) for k_, x_ in bases if k_ in ('base:dense', 'base:const')]
+    for kind, x0 in bases:
         cfg = dict(item, base_kind=kind, base_nonzeros=[[int(i), float(x0[i])] for i in np.flatnonzero(x0)[:3]] + ([['...', int(np.count_nonzero(x0))]] if np.count_nonzero(x0) > 3 else []))
         del cfg['kind']
         h = min(1e-3, mb / 100.0)        # small against the bias whatever the magnitude of the base point (curvature ~ 1/bias where a band is ~0)
@@ -146,6 +152,22 @@ def run(item):
                 X = torch.as_tensor(np.repeat(x0[None, :], n, axis=0).reshape(n, C, H, W)).clone().requires_grad_(True)
                 Z = mod(X)
                 cot = torch.zeros(Z.shape, dtype=Z.dtype)
+                if kind == 'base:dense' and r0 == 0 and 'inplace' not in done:
+                    # the output scaled IN PLACE before back-propagation: the gradient is the scaled gradient (or autograd must refuse)
+                    done.add('inplace')
+                    cn_ = torch.as_tensor(np.cos(0.3 * np.arange(Z[:1].numel())).reshape(Z[:1].shape))
+                    Xa = X.detach()[:1].clone().requires_grad_(True)
+                    (ga,) = torch.autograd.grad([mod(Xa) * 3.0], [Xa], grad_outputs=[cn_])
+                    Xb = X.detach()[:1].clone().requires_grad_(True)
+                    try:
+                        zb = mod(Xb)
+                        zb.mul_(3.0)
+                        (gb,) = torch.autograd.grad([zb], [Xb], grad_outputs=[cn_])
+                        res.regime('output:inplace_before_backward')
+                        if float((ga - gb).abs().max()) > 1e-9 * max(1.0, float(ga.abs().max())):
+                            res.violation('scat_gradient', dict(cfg, output_modified_in_place=True), {'kind': 'value', 'maxdev': float((ga - gb).abs().max())}, tags)
+                    except RuntimeError:
+                        res.regime('output:inplace_before_backward')      # autograd's version check refusing is acceptable
                 if kind == 'base:dense' and r0 == 0 and 'noncontig' not in done:
                     # the same base point as a non-contiguous (NHWC-permuted) tensor that requires grad: same gradient
                     done.add('noncontig')
